@@ -49,8 +49,11 @@ def mk_incoming(mtype):
 
         NRS = [-1, 0, 2, 8, 16, 10, 18, 24, 26, 31, 1, 4]
 
-        def h(ci: int, mc: bool, slow: bool, nri: int, rci: int, known: bool) -> None:
-            assert 0 <= ci < len(CODES) and 0 <= nri < len(NRS) and 0 <= rci < 3
+        def h(ci: int, mc: bool, slow: bool, nri: int, rci: int, kn: int) -> None:
+            assert 0 <= ci < len(CODES) and 0 <= nri < len(NRS) and 0 <= rci < 3 and 0 <= kn <= 3
+            # token: 0 never issued / 1 own request outstanding / 2, 3: own request to a unicast / multicast destination that the
+            # application has meanwhile cancelled (the token is retired: a response on it is unmatched)
+            known = kn == 1
             nr = pick(NRS, nri)
             code = pick(CODES, ci)
             rcode = pick(RCODES, rci)
@@ -61,7 +64,7 @@ def mk_incoming(mtype):
                 return
             if cc.is_request() and code not in (1, 2) and (rci != 0 or slow):
                 return
-            if not cc.is_response() and known:
+            if not cc.is_response() and kn != 0:
                 return
             with SimLoop() as loop:
                 res = Hello(300 if slow else 0, rcode)
@@ -79,6 +82,15 @@ def mk_incoming(mtype):
                     loop.run_ready()
                     token = S.out()[0].token
                     n_own = 1
+                elif kn >= 2 and c.is_response():
+                    req = Message(code=GET, uri_path=["x"], _mtype=NON)
+                    req.remote = S.remote(stack.R0 if kn == 2 else ("ff02::fd", 5683, 0, 0))
+                    rq = S.ctx.request(req, handle_blockwise=False)
+                    loop.run_ready()
+                    token = S.out()[0].token
+                    n_own = 1
+                    rq.response.cancel()
+                    loop.run_ready()
                 m = Message(code=code, _mtype=t, _mid=77, _token=token)
                 if c.is_request():
                     m.opt.uri_path = ["h"]
@@ -209,6 +221,69 @@ def mk_con_to_multicast(reach):
     return h
 
 
+def mk_reply_while_busy(reach):
+    """the reply to a request does not wait for an unrelated open confirmable exchange with the same peer (NSTART limits the
+    confirmable messages this end originates, not acknowledgements and non-confirmable responses)"""
+    import asyncio
+    from vf import stack
+    from vf.simloop import SimLoop
+    from aiocoap.message import Message
+    from aiocoap import resource
+    from aiocoap.numbers.types import CON, NON, ACK, RST
+    from aiocoap.numbers.codes import Code, GET, EMPTY
+    stack.configure(max_retransmit=1)
+
+    class Hello(resource.Resource):
+        def __init__(self, delay):
+            super().__init__()
+            self.delay = delay
+
+        async def render_get(self, request):
+            if self.delay:
+                await asyncio.sleep(self.delay)
+            return Message(payload=b"hi")
+
+    def h(own: int, t2: int, dt: int, fast: bool) -> None:
+        assert 0 <= own <= 1 and 0 <= t2 <= 1 and 0 <= dt <= 1500
+        with SimLoop() as loop:
+            site = resource.Site()
+            site.add_resource(["slow"], Hello(300))
+            site.add_resource(["fast"], Hello(0))
+            site.add_resource(["medium"], Hello(150))
+            S = stack.StackS(loop, site)
+            if own == 0:
+                # a separate confirmable response of this server to the peer is unacknowledged
+                S.deliver(Message(code=GET, _mtype=CON, _mid=70, _token=b"\x01", uri_path=["slow"]).encode(), stack.R0)
+                loop.advance(300)
+            else:
+                # this end's own confirmable request to the peer is unacknowledged
+                req = Message(code=GET, uri_path=["x"], _mtype=CON)
+                req.remote = S.remote(stack.R0)
+                S.ctx.request(req, handle_blockwise=False)
+                loop.run_ready()
+            opened = [k for k in S.mman._active_exchanges if k[0].sockaddr[:2] == stack.R0[:2]]
+            assert len(opened) == 1
+            loop.advance(dt)                # still before the first retransmission at 2000 ticks
+            n0 = len(S.tr.sent)
+            t_arr = loop.time()
+            S.deliver(Message(code=GET, _mtype=pick([CON, NON], t2), _mid=71, _token=b"\x02", uri_path=["fast" if fast else "medium"]).encode(), stack.R0)
+            loop.advance(160)
+            new = [(Message.decode(d), tm) for (d, a, tm) in S.tr.sent[n0:] if a[:2] == stack.R0[:2]]
+            mine = [(o, tm) for (o, tm) in new if o.token == b"\x02" or (int(o.code) == 0 and o.mid == 71)]
+            if fast:
+                assert [(o.mtype, int(o.code), tm) for (o, tm) in mine] == [(ACK if t2 == 0 else NON, 69, t_arr)], \
+                    "ready response must be sent at once (piggy-backed / non-confirmable), whatever else is open with that peer"
+            elif t2 == 0:
+                assert [(o.mtype, int(o.code), tm) for (o, tm) in mine][:1] == [(ACK, 0, t_arr + 100)], "empty ACK after EMPTY_ACK_DELAY"
+            else:
+                assert [(o.mtype, int(o.code), tm) for (o, tm) in mine] == [(NON, 69, t_arr + 150)]
+            for hnd in list(loop.pending_timers()):
+                hnd.cancel()
+            assert loop.exceptions == []
+        assert not reach, "reach"
+    return h
+
+
 def mk_codes(reach):
     from aiocoap.numbers.codes import Code
     for i in range(256):
@@ -230,10 +305,13 @@ def obligations(tier):
     for t, name in ((0, "con"), (1, "non"), (2, "ack"), (3, "rst")):
         obs.append(Obligation("incoming-%s" % name, mk_incoming(t), 280 if q else 1500, functions=FUNCS,
                               symbolic={"code": "index over %s" % CODES, "received on multicast address": "bool", "slow handler": "bool",
-                                        "No-Response": "index over absent,0,2,8,16,10,18,24,26,31,1,4", "handler response code": "index 2.05/4.04/5.00", "token known (own request outstanding)": "bool"},
+                                        "No-Response": "index over absent,0,2,8,16,10,18,24,26,31,1,4", "handler response code": "index 2.05/4.04/5.00", "token": "never issued / own request outstanding / retired by cancelling a unicast request / a multicast request"},
                               concrete={"type": name}, stubs=["SimLoop", "FakeDatagramTransport", "integer tuning", "random stubs"]))
     obs.append(Obligation("con-to-multicast", mk_con_to_multicast, 200 if q else 600,
                           functions=["MessageManager.send_message", "UDP6EndpointAddress.is_multicast", "TokenManager.request"],
                           symbolic={"destination": "index over ff02::fd, ff05::fd, mapped 224.0.1.187, unicast", "requested type": "None/CON/NON", "reliability tuning": "None/True/False"}))
+    obs.append(Obligation("reply-while-exchange-open", mk_reply_while_busy, 200 if q else 600, functions=FUNCS + ["MessageManager._continue_backlog"],
+                          symbolic={"open exchange": "server's separate CON response / client's own CON request", "type of the new request": "CON / NON",
+                                    "arrival": "[0, 1500] ticks after the exchange opened", "handler": "ready at once / after 150 ticks"}))
     obs.append(Obligation("code-classes", mk_codes, 200, functions=["numbers.codes.Code.*"], symbolic={"code": "0..255"}))
     return obs
